@@ -37,6 +37,7 @@ type inst struct {
 	ref    map[string]*refEntry
 	orders [][]string // candidate LRU orders (front = next victim)
 	cap    int
+	filled int // big configurations: how many names the Fill operations have inserted so far
 }
 
 type sys struct {
@@ -431,6 +432,37 @@ func build(cfg string) explore.System {
 		var c int
 		fmt.Sscanf(cfg, "ambig cap=%d", &c)
 		return newSys([]string{"/a/b", "/a%00%00%00%00%00%00%00%08b", "/a/264=b", "/a%08b"}, c, []int{1, 2}, []int{-1}, nil)
+	case strings.HasPrefix(cfg, "big"):
+		// capacities at which per-batch / per-tick shortcuts would start to matter (64, 128, 1024):
+		// macro operations that insert k new names in a row, each insertion checked like a single Put
+		var c int
+		fmt.Sscanf(cfg, "big cap=%d", &c)
+		var names []string
+		for i := 0; i < 2*c+8; i++ {
+			names = append(names, fmt.Sprintf("/n/%d", i))
+		}
+		s := newSys(names, c, nil, []int{-1}, nil)
+		s.ops = nil
+		for _, k := range []int{c - 1, c + 1, c + 6} {
+			k := k
+			name := fmt.Sprintf("Fill(%d new names)", k)
+			s.ops = append(s.ops, explore.Op{Name: name})
+			s.do[name] = func(in *inst) (v []report.Violation) {
+				for i := 0; i < k && len(v) == 0; i++ {
+					n := names[in.filled%len(names)]
+					in.filled++
+					v = s.put(in, n, -1, "p")
+					if len(v) == 0 && i%7 == 0 {
+						v = s.get(in, n, false, false)
+					}
+				}
+				for i := range v {
+					v[i].Key = fmt.Sprintf("capacity %d: %s", c, v[i].Key)
+				}
+				return
+			}
+		}
+		return s
 	case strings.HasPrefix(cfg, "typed"):
 		// sibling names whose last components differ in TYPE only (equal value bytes)
 		var c int
@@ -465,6 +497,12 @@ func main() {
 			for _, k := range []int{2, 3} {
 				c = append(c, explore.Config{Name: fmt.Sprintf("ambig cap=%d", k), MaxDepth: d2, MaxDev: -1})
 				c = append(c, explore.Config{Name: fmt.Sprintf("typed cap=%d", k), MaxDepth: d2, MaxDev: -1})
+			}
+			for _, k := range []int{64, 128, 1024} {
+				if k == 1024 && !th {
+					continue
+				}
+				c = append(c, explore.Config{Name: fmt.Sprintf("big cap=%d", k), MaxDepth: 2, MaxDev: -1})
 			}
 			// audit of the canonical form: the same search without state de-duplication
 			ad := 3
